@@ -1378,6 +1378,16 @@ func (x *Exec) runInstrs(st *State, fr *Frame, b *ssa.BasicBlock, idx int, prev 
 		case *ssa.BinOp:
 			fr.regs[in] = x.binop(st, in.Op, x.val(fr, in.X), x.val(fr, in.Y), in.X.Type())
 		case *ssa.UnOp:
+			if in.Op == token.MUL {
+				// load through a pointer that is nil on this path: a panic (the path ends), and an
+				// obligation under a safety contract
+				if p, ok := x.val(fr, in.X).(*Ptr); ok && p.cell == nil {
+					if x.safety {
+						x.oblige(st, "safety.nil@"+x.posTag(in.Pos(), fr), tFalse, "nil dereference")
+					}
+					return nil, nil, nil, []Out{{st: st, kind: oPanic, msg: "nil pointer dereference"}}, true
+				}
+			}
 			fr.regs[in] = x.unop(st, fr, in)
 		case *ssa.FieldAddr:
 			p := x.ptr(fr, in.X)
